@@ -197,7 +197,7 @@ type Case struct {
 	NewAlg int    `json:"new_alg"`
 }
 
-const rule = "(pool key: RSA 512..4096 two- and multi-prime, ECDSA P-224..P-521 also as *AugmentedECDSA, Ed25519, DSA L1024N160/L2048N224/L2048N256) x (every SignatureAlgorithm the key can produce) x message; the signature is produced by the Go standard library (crypto/rsa, ecdsa, ed25519, dsa), must verify with CheckSignatureFromKey, and one mutation is applied: message flip/truncate/extend, signature flip/truncate/extend, (r,s) re-encodings (negative, zero, +n, n-s, swapped, padded, BER length, trailing bytes), key swap to any pool key, algorithm swap to any constant 0..17, algorithm of another key type with the same hash (incl. Ed25519 over the digest), RSA private-key operation on a crafted almost-valid EMSA-PKCS1-v1_5 / EMSA-PSS encoding (wrong block type, padding byte, missing NULL, trailing garbage, no separator; PSS padding/delimiter/trailer/top bits/salt length); acceptance of a mutated triple is allowed only if the standard library judges it valid. Non-trivial: a mutated case; distinct by case hash"
+const rule = "(pool key: RSA 512..4096 two- and multi-prime, ECDSA P-224..P-521 also as *AugmentedECDSA, Ed25519, DSA L1024N160/L2048N224/L2048N256) x (every SignatureAlgorithm the key can produce) x message; the signature is produced by the Go standard library (crypto/rsa, ecdsa, ed25519, dsa), must verify with CheckSignatureFromKey, and one mutation is applied: message flip/truncate/extend, signature flip/truncate/extend, (r,s) re-encodings (negative, zero, +n, n-s, swapped, padded, BER length, trailing bytes), key swap to any pool key, algorithm swap to any constant 0..17, algorithm of another key type with the same hash (incl. Ed25519 over the digest), RSA private-key operation on a crafted almost-valid EMSA-PKCS1-v1_5 / EMSA-PSS encoding (wrong block type, padding byte, missing NULL, trailing garbage, no separator; PSS padding/delimiter/trailer/top bits/salt length, and - with two deterministic RSA keys of 1025 and 1033 bits, i.e. emLen < k - a valid encoding behind a non-zero surplus leading octet); acceptance of a mutated triple is allowed only if the standard library judges it valid. Non-trivial: a mutated case; distinct by case hash"
 
 func mutate(c Case, k *keys.Key, a x509.SignatureAlgorithm, msg, sig []byte) (k2 *keys.Key, a2 x509.SignatureAlgorithm, msg2, sig2 []byte, what string) {
 	k2, a2, msg2, sig2 = k, a, msg, sig
@@ -358,8 +358,56 @@ func mgf1(seed []byte, n int, h crypto.Hash) []byte {
 // craftEM builds an encoded message that is NOT a valid EMSA-PKCS1-v1_5 /
 // EMSA-PSS (hash-length salt) encoding of the digest but close to one (RFC
 // 8017 section 9); signed with the private key it must be rejected.
+// canonicalPSS is EMSA-PSS-ENCODE (RFC 8017 9.1.1) with sLen = hLen and a
+// deterministic salt: an encoded message every conforming verifier accepts.
+func canonicalPSS(k *stdrsa.PrivateKey, alg certgen.StdAlg, digest, extra []byte) []byte {
+	hLen := alg.Hash.Size()
+	emBits := k.N.BitLen() - 1
+	emLen := (emBits + 7) / 8
+	if emLen < 2*hLen+2 {
+		return nil
+	}
+	salt := make([]byte, hLen)
+	for i := range salt {
+		salt[i] = byte(i*31 + len(extra))
+	}
+	x := alg.Hash.New()
+	x.Write(make([]byte, 8))
+	x.Write(digest)
+	x.Write(salt)
+	h := x.Sum(nil)
+	db := make([]byte, emLen-hLen-1)
+	db[len(db)-hLen-1] = 1
+	copy(db[len(db)-hLen:], salt)
+	mask := mgf1(h, len(db), alg.Hash)
+	for i := range db {
+		db[i] ^= mask[i]
+	}
+	db[0] &= 0xff >> (8*emLen - emBits)
+	return append(append(db, h...), 0xbc)
+}
+
+// opLeadingOctet requests (PSS only, keys with emLen < k) a perfectly valid encoded
+// message prefixed with a NON-ZERO octet: the integer the signature decrypts to is
+// 01 || EM, which RFC 8017 8.1.2 / 9.1.2 rejects because its length exceeds emLen.
+const opLeadingOctet = 1000
+
 func craftEM(k *stdrsa.PrivateKey, alg certgen.StdAlg, digest []byte, op int, extra []byte) ([]byte, string) {
 	kLen := (k.N.BitLen() + 7) / 8
+	if op == opLeadingOctet {
+		if !alg.PSS || (k.N.BitLen()-1+7)/8 >= kLen {
+			return nil, ""
+		}
+		canon := canonicalPSS(k, alg, digest, extra)
+		if canon == nil {
+			return nil, ""
+		}
+		out := append([]byte{0x01}, canon...)
+		if new(big.Int).SetBytes(out).Cmp(k.N) >= 0 {
+			return nil, "" // not representable below the modulus for this key/digest
+		}
+		return out, "em-pss-leading-octet-nonzero"
+	}
 	if !alg.PSS {
 		t := append(append([]byte{}, digestInfoPrefix[alg.Hash]...), digest...)
 		switch op % 5 {
@@ -480,7 +528,7 @@ func craftEM(k *stdrsa.PrivateKey, alg certgen.StdAlg, digest []byte, op int, ex
 }
 
 func check(c Case, r *kit.R) {
-	k := keys.Get(c.Key)
+	k := keyAt(c.Key)
 	a := x509.SignatureAlgorithm(c.Alg)
 	if !canSign(k, a) {
 		r.Class("skipped:key-cannot-produce-algorithm")
@@ -553,7 +601,12 @@ func gen(t *rapid.T) Case {
 	} else {
 		c.Key = rapid.SampledFrom(cheap).Draw(t, "key")
 	}
-	k := keys.Get(c.Key)
+	// RSA keys whose modulus length is 1 (mod 8): see oddkeys.go
+	oddKey := certgen.Chance(t, "odd-rsa-key", 12)
+	if oddKey {
+		c.Key = -rapid.IntRange(1, 2).Draw(t, "odd-key")
+	}
+	k := keyAt(c.Key)
 	var algs []int
 	for a := 1; a <= 16; a++ {
 		if canSign(k, x509.SignatureAlgorithm(a)) {
@@ -565,6 +618,9 @@ func gen(t *rapid.T) Case {
 	c.AugEC = rapid.Bool().Draw(t, "aug")
 	c.Kind = rapid.SampledFrom([]int{0, 1, 2, 2, 3, 3, 3, 4, 5, 5, 6, 6, 7, 7, 7}).Draw(t, "kind")
 	c.Op = rapid.IntRange(0, 59).Draw(t, "op")
+	if oddKey && certgen.Chance(t, "leading-octet", 50) {
+		c.Kind, c.Op = 7, opLeadingOctet // crafted EM with a non-zero surplus leading octet
+	}
 	c.Off = rapid.IntRange(0, 2000).Draw(t, "off")
 	c.Xor = byte(rapid.SampledFrom([]int{1, 0x80, 0xff, 0x10, 0}).Draw(t, "xor"))
 	c.Extra = rapid.SliceOfN(rapid.Byte(), 1, 4).Draw(t, "extra")
